@@ -34,6 +34,7 @@ import (
 	"github.com/libp2p/go-libp2p-kad-dht/internal/verif/vh"
 	"github.com/libp2p/go-libp2p-kad-dht/internal/verif/vjds"
 	"github.com/libp2p/go-libp2p-kad-dht/internal/verif/vsim"
+	"github.com/libp2p/go-libp2p-kad-dht/netsize"
 	pb "github.com/libp2p/go-libp2p-kad-dht/pb"
 )
 
@@ -1043,6 +1044,15 @@ func TestVerif_C15_scoping(t *testing.T) {
 			"wan-server-stores-only-public-addresses", "wan-server-serves-only-public-addresses", "lan-server-serves-no-loopback"}},
 		func(c *vh.Case) {
 			cfg := vC15GenCfg(c, true)
+			// every eighth case (no PRNG draw) enables optimistic provide on both members and warms their network-size
+			// estimators with lookups, so that Provide advertises through lookup_optim.go where the network allows it
+			// (fewer than K reachable peers: the code falls back to the classic path)
+			optProv := c.Idx%8 == 5
+			if optProv {
+				cfg.ExtraWan = append(cfg.ExtraWan, dht.EnableOptimisticProvide())
+				cfg.ExtraLan = append(cfg.ExtraLan, dht.EnableOptimisticProvide())
+			}
+			c.Set("optimistic_provide", optProv)
 			c.Bubble(t, 60*time.Minute, "dual-op-hang", func(t *testing.T) {
 				n := vDNewNet(c, cfg)
 				defer n.Close()
@@ -1050,6 +1060,15 @@ func TestVerif_C15_scoping(t *testing.T) {
 				n.SeedTables()
 				n.U.SelfCheck(c)
 				vC15Describe(c, n)
+				if optProv {
+					for i := 0; i <= netsize.MinMeasurementsThreshold; i++ {
+						wctx, wcancel := context.WithTimeout(context.Background(), time.Minute)
+						n.D.WAN.GetClosestPeers(wctx, fmt.Sprintf("/v/c15-warm-%d-%d", c.Idx, i))
+						n.D.LAN.GetClosestPeers(wctx, fmt.Sprintf("/v/c15-warm-%d-%d", c.Idx, i))
+						wcancel()
+						n.Settle()
+					}
+				}
 				nops := 4 + c.R.Intn(3)
 				var ress []*vDRes
 				for i := 0; i < nops; i++ {
